@@ -2,7 +2,7 @@ package main
 
 // Core-fragment stream: programs inside the Lean fragment (Spec/GoCore.lean) are generated as
 // trees, rendered both as Go source and as protocol terms, and compared four ways:
-// yaegi = Lean CFG model (y=) = Lean Go-spec (g=) = compiled Go.
+// yaegi = Lean CFG model (y=) = Lean frame-slot model (z=) = Lean Go-spec (g=) = compiled Go.
 
 import (
 	"fmt"
@@ -71,6 +71,63 @@ func (e *cExpr) goSrc() string {
 		return op + e.a.goSrc()
 	}
 	return "(" + e.a.goSrc() + " " + binGo[e.op] + " " + e.b.goSrc() + ")"
+}
+
+// topSrc renders an expression in a position where it is a whole operand of a statement (right-hand
+// side, return value, call argument, Println argument): without the outer parentheses, so that the
+// node yaegi sees there is the operator node itself and cfg.go's write-into-the-destination shortcuts
+// apply (a parenthesised right-hand side is a parenExpr, which keeps the assign closure). One in four
+// (by a deterministic function of the expression) keeps the parentheses, to cover that path too.
+func (e *cExpr) topSrc() string {
+	if e.k != "bin" {
+		return e.goSrc()
+	}
+	if len(e.sexp())%4 == 0 {
+		coreFeat("core:rhs-parenthesised")
+		return e.goSrc()
+	}
+	return e.a.goSrc() + " " + binGo[e.op] + " " + e.b.goSrc()
+}
+
+func (e *cExpr) isOp() bool { return e.k == "bin" || e.k == "neg" || e.k == "cpl" }
+
+func (e *cExpr) mentions(x int) bool {
+	switch e.k {
+	case "lit":
+		return false
+	case "var":
+		return e.n == int64(x)
+	case "neg", "cpl":
+		return e.a.mentions(x)
+	}
+	return e.a.mentions(x) || e.b.mentions(x)
+}
+
+// curFeats collects the slot-level features of the core program being rendered (reset by genCore).
+var curFeats map[string]bool
+
+func coreFeat(f string) {
+	if curFeats != nil {
+		curFeats[f] = true
+	}
+}
+
+// assignFeats records which frame-slot shortcut an assignment `vx = e` exercises.
+func assignFeats(x int, e *cExpr) {
+	if !e.isOp() {
+		coreFeat("core:assign-mov")
+		return
+	}
+	coreFeat("core:skip-assign")
+	if e.mentions(x) {
+		// x = x op …: the destination slot is among the operands
+		coreFeat("core:skip-assign:dest-among-operands")
+		if e.k == "bin" && ((e.a.isOp() && e.b.mentions(x)) || (e.b.isOp() && e.a.mentions(x))) {
+			// … and is read by the top node after an operator child has been evaluated: the case in
+			// which handing the destination down to a child would be wrong (dst_down_witness)
+			coreFeat("core:skip-assign:dest-read-after-child")
+		}
+	}
 }
 
 func (e *cExpr) isConst() bool {
@@ -181,15 +238,25 @@ func (s *cStmt) render(b *strings.Builder, ind int) {
 		s.a.render(b, ind)
 		s.b.render(b, ind)
 	case "assign":
-		fmt.Fprintf(b, "%sv%d = %s\n", tab, s.x, s.e.goSrc())
+		assignFeats(s.x, s.e)
+		fmt.Fprintf(b, "%sv%d = %s\n", tab, s.x, s.e.topSrc())
 	case "print":
-		fmt.Fprintf(b, "%sfmt.Println(%s)\n", tab, s.e.goSrc())
+		fmt.Fprintf(b, "%sfmt.Println(%s)\n", tab, s.e.topSrc())
 	case "ret":
-		fmt.Fprintf(b, "%sreturn %s\n", tab, s.e.goSrc())
+		if s.e.isOp() {
+			coreFeat("core:return-operator")
+		}
+		fmt.Fprintf(b, "%sreturn %s\n", tab, s.e.topSrc())
 	case "call":
 		var as []string
 		for _, a := range s.args {
-			as = append(as, a.goSrc())
+			as = append(as, a.topSrc())
+			if a.isOp() {
+				coreFeat("core:call-operator-argument")
+			}
+			if a.mentions(s.x) {
+				coreFeat("core:call-dest-among-arguments")
+			}
 		}
 		fmt.Fprintf(b, "%sv%d = f%d(%s)\n", tab, s.x, s.g, strings.Join(as, ", "))
 	case "ite":
@@ -231,14 +298,15 @@ func (s *cStmt) render(b *strings.Builder, ind int) {
 		}
 		post := ""
 		if s.b.k == "assign" {
-			post = fmt.Sprintf("v%d = %s", s.b.x, s.b.e.goSrc())
+			assignFeats(s.b.x, s.b.e)
+			post = fmt.Sprintf("v%d = %s", s.b.x, s.b.e.topSrc())
 		}
 		switch {
 		case s.init != nil && s.declareVar:
 			// `for w := e0; c; w = …` with the loop variable renamed to a fresh identifier
-			fmt.Fprintf(b, "%sfor v%d := %s; %s; %s {\n", tab, s.init.x, s.init.e.goSrc(), s.c.goSrc(), post)
+			fmt.Fprintf(b, "%sfor v%d := %s; %s; %s {\n", tab, s.init.x, s.init.e.topSrc(), s.c.goSrc(), post)
 		case s.init != nil:
-			fmt.Fprintf(b, "%sfor v%d = %s; %s; %s {\n", tab, s.init.x, s.init.e.goSrc(), s.c.goSrc(), post)
+			fmt.Fprintf(b, "%sfor v%d = %s; %s; %s {\n", tab, s.init.x, s.init.e.topSrc(), s.c.goSrc(), post)
 		case post != "":
 			fmt.Fprintf(b, "%sfor ; %s; %s {\n", tab, s.c.goSrc(), post)
 		default:
@@ -526,8 +594,11 @@ func genFunc(r *rand.Rand, idx int, callable []int, rec0 bool) (src string, term
 const factSrc = "func f0(v0, v1 int) int {\n\tvar v2 int\n\t_ = v2\n\tif (v0 <= 0) {\n\t\treturn v1\n\t}\n\tv2 = f0((v0 - 1), (v1 + (v0 * v0)))\n\treturn v2\n}\n\n"
 const factTerm = "(ite (cmp le (var 0) (lit 0)) (ret (var 1)) (seq (call 2 0 (bin sub (var 0) (lit 1)) (bin add (var 1) (bin mul (var 0) (var 0)))) (ret (var 2))))"
 
-// genCore returns Go source and the protocol term (function bodies and main) of one core program.
-func genCore(r *rand.Rand) (string, string) {
+// genCore returns Go source, the protocol term (function bodies and main) and the slot-level feature
+// buckets of one core program.
+func genCore(r *rand.Rand) (string, string, map[string]bool) {
+	curFeats = map[string]bool{}
+	defer func() { curFeats = nil }()
 	var fsrc, fterm []string
 	var nparams []int
 	rec0 := false
@@ -571,7 +642,7 @@ func genCore(r *rand.Rand) (string, string) {
 	fmt.Fprintf(&b, "\t_, _, _ = %s\n", strings.Join(names[:3], ", "))
 	p.render(&b, 1)
 	b.WriteString("}\n")
-	return b.String(), "(funs " + strings.Join(fterm, " ") + ") " + p.sexp()
+	return b.String(), "(funs " + strings.Join(fterm, " ") + ") " + p.sexp(), curFeats
 }
 
 func parseInts(out string) string {
@@ -592,8 +663,10 @@ func coreStream(run *common.Run) {
 	}
 	for done := 0; done < n; done += 600 {
 		var srcs, terms, lines []string
+		var feats []map[string]bool
 		for i := 0; i < 600; i++ {
-			src, term := genCore(rand.New(rand.NewSource(run.Rng.Int63())))
+			src, term, ft := genCore(rand.New(rand.NewSource(run.Rng.Int63())))
+			feats = append(feats, ft)
 			srcs = append(srcs, src)
 			terms = append(terms, term)
 			lines = append(lines, "C01 run 200000 "+term)
@@ -614,7 +687,7 @@ func coreStream(run *common.Run) {
 				continue
 			}
 			ans := common.Fields(answers[i])
-			if ans["y"] == "" || ans["g"] == "" {
+			if ans["y"] == "" || ans["g"] == "" || ans["z"] == "" {
 				run.Errorf("driver answered %q", answers[i])
 				continue
 			}
@@ -647,8 +720,11 @@ func coreStream(run *common.Run) {
 			if strings.Contains(terms[i], "(land ") || strings.Contains(terms[i], "(lor ") {
 				run.Hit("core:short-circuit")
 			}
+			for f := range feats[i] {
+				run.Hit(f)
+			}
 			if len(run.Res.Samples) < 2 {
-				run.Sample(map[string]interface{}{"src": srcs[i], "term": terms[i], "impl": impl, "model": ans["y"], "spec": ans["g"], "ref": ref}, 2)
+				run.Sample(map[string]interface{}{"src": srcs[i], "term": terms[i], "impl": impl, "model": ans["y"], "model-slots": ans["z"], "spec": ans["g"], "ref": ref}, 2)
 			}
 			in := map[string]interface{}{"src": srcs[i], "term": terms[i]}
 			clip := func(s string) string {
@@ -657,8 +733,18 @@ func coreStream(run *common.Run) {
 				}
 				return s
 			}
-			if impl != ans["y"] {
-				run.Disagree(common.Disagreement{Kind: "impl-vs-model", Input: in, Impl: clip(impl), Model: clip(ans["y"]), Ref: clip(ref)})
+			if ans["z"] != ans["y"] {
+				// the two levels of OUR model disagree (Props/C01.lean slots_refine says they cannot on
+				// terminating runs): a defect of the machinery, never a finding
+				run.Errorf("model levels disagree: level-1 y=%s, slot level z=%s on %s", clip(ans["y"]), clip(ans["z"]), terms[i])
+			}
+			switch {
+			case impl != ans["y"] && impl != ans["z"]:
+				run.Disagree(common.Disagreement{Kind: "impl-vs-model", Input: in, Impl: clip(impl), Model: clip(ans["z"]), Ref: clip(ref), Note: "both model levels (CFG level y=" + clip(ans["y"]) + ")"})
+			case impl != ans["y"]:
+				run.Disagree(common.Disagreement{Kind: "impl-vs-model", Input: in, Impl: clip(impl), Model: clip(ans["y"]), Ref: clip(ref), Note: "CFG level only"})
+			case impl != ans["z"]:
+				run.Disagree(common.Disagreement{Kind: "impl-vs-model", Input: in, Impl: clip(impl), Model: clip(ans["z"]), Ref: clip(ref), Note: "frame-slot level only"})
 			}
 			if ref != ans["g"] {
 				run.Disagree(common.Disagreement{Kind: "spec-vs-ref", Input: in, Spec: clip(ans["g"]), Ref: clip(ref)})
